@@ -767,6 +767,31 @@ class C10Executor(Executor):
             # streams the container was opened on (seekable `r:` vs one-pass `r|`) is judged by the clauses about the open mode
             self.exc_any(st.fork(), "TarFile.getmembers()")
             it = tar_members_seq(it)
+        if isinstance(it, VSeq) and isinstance(it.tag, tuple) and len(it.tag) == 4 and it.tag[0] == "genexp" and not getattr(s, "_c10_from_genexp", False):
+            # `for x in (E for t in IT if C): body` is the loop `for t in IT: if not C: continue; x = E; body` over the iterable
+            # the generator expression was created on (evaluated at creation, PY-GENEXP); E and C run once per element, lazily,
+            # so an element that may raise raises from the loop, under the loop's invariant.  The generator's own variable must
+            # not be a name of the enclosing function (it would be private to the generator).
+            gnode, base = it.tag[2], it.tag[3]
+            g = gnode.generators[0]
+            tnames = {x.id for x in ast.walk(g.target) if isinstance(x, ast.Name)}
+            fn = st.frame.fnode
+            outside = [x for x in ast.walk(fn) if isinstance(x, ast.Name) and x.id in tnames] if fn is not None else []
+            within = [x for x in ast.walk(gnode) if isinstance(x, ast.Name) and x.id in tnames]
+            if fn is None or len(outside) != len(within) or any(st.lookup(t) is not None for t in tnames):
+                self.unsupported(s, "loop over a generator expression whose variable is also a name of the function")
+            tmp = fresh_name("genexp!iter").replace("!", "_")
+            st.bind(tmp, base)
+            body = [ast.If(test=ast.UnaryOp(op=ast.Not(), operand=c_), body=[ast.Continue()], orelse=[]) for c_ in g.ifs]
+            body.append(ast.Assign(targets=[s.target], value=gnode.elt))
+            loop = ast.For(target=g.target, iter=ast.Name(id=tmp, ctx=ast.Load()), body=body + list(s.body), orelse=list(s.orelse))
+            ast.copy_location(loop, s)
+            for x in body:
+                ast.copy_location(x, s)
+                ast.fix_missing_locations(x)
+            ast.fix_missing_locations(loop)
+            loop._c10_from_genexp = True
+            return self.symbolic_for(loop, st, base)
         if self.contract is not None:
             for key, sp in self.contract.loops.items():
                 if isinstance(key, tuple) and key[0] == "role" and sp.match(self, st, it, s):
@@ -856,7 +881,7 @@ class C10Executor(Executor):
                         if len(r) != 1 or any(self.feasible(es.pc) for (es, _e) in raised):
                             self.unsupported(n, "generator expression: forking / raising element")
                         return z3.And(conds + [z3.BoolVal(True)]), r[0][1]
-                    out.append((s2, VSeq(it.length, lambda j, at=at: at(j)[1], "genexp", tag=("genexp", at))))
+                    out.append((s2, VSeq(it.length, lambda j, at=at: at(j)[1], "genexp", tag=("genexp", at, n, it))))
                 return out
         return super().e_GeneratorExp(n, st)
 
@@ -1882,6 +1907,17 @@ def layout_contracts(lay_reg=None):
             conj.append(z3.Not(HASF(i - 1)))
         if lc.extra.get("phase") in ("init", "assume"):
             lc.st.assume(ps_def(i))                      # definition of the prefix sum at 0 and at this folder index
+        # a RUNNING position (an int the loop carries from folder to folder) has advanced by the packed sizes of the
+        # folders passed so far: candidate invariant for every loop-carried int; a carried int of another kind fails its
+        # preservation VC (-> unknown, the replayer decides), it is never assumed away
+        try:
+            carried = loop_carried_ints(lc)
+        except Exception:  # noqa  (no recognisable loop node: no candidates)
+            carried = {}
+        for name, cur in carried.items():
+            v0 = lc.entry.lookup(name)
+            if isinstance(v0, VInt) and isinstance(cur, VInt):
+                conj.append(ops.int_term(cur) == ops.int_term(v0) + PS(i))
         return z3.And(conj + [PS(i) >= 0])
 
     out.append(FnContract(
